@@ -4,11 +4,16 @@ from lib import *
 import prog, gen_c, coexec
 
 
+def is_signed(ct):
+    return ct.startswith("signed") or ("short" in ct and "unsigned" not in ct)
+
+
 def csem_request(mode, p, vals, arrs, fuel=60000):
     segs = gen_c.program_tokens(p)
-    vs = " ".join("%s:%d=%d" % (n, b, v) for (n, b, v) in vals)
+    sg = {name for (ct, name, n, q) in p.decls if is_signed(ct)}
+    vs = " ".join("%s:%s%d=%d" % (n, "s" if n in sg else "", b, v) for (n, b, v) in vals)
     wide = {name for (ct, name, n, q) in p.decls if n and "short" in ct}
-    as_ = " ".join("%s%s=%s" % (n, ":16" if n in wide else "", ",".join(str(x) for x in xs)) for n, xs in arrs)
+    as_ = " ".join("%s:%s%d=%s" % (n, "s" if n in sg else "", 16 if n in wide else 8, ",".join(str(x) for x in xs)) for n, xs in arrs)
     return "csem %s %d / %s / %s / %s" % (mode, fuel, vs, as_, " / ".join(" ".join(s) for s in segs))
 
 
